@@ -17,6 +17,7 @@ CONSTANTS
   ThrInc = 10000
   MaxClk = 0
   OldPopOrder = FALSE
+  OldTimeCharge = FALSE
   XFlags = {}
   MaxDepth = 64
   MaxFrames = 64
